@@ -1,4 +1,5 @@
 """C05 Every accepted input yields sources that compile and link -- necessary conditions only (DESIGN.md 6/C05)."""
+import json
 from checklib import REPO
 from tables import invariants as I
 
@@ -6,8 +7,40 @@ from tables import invariants as I
 def run(ctx):
     tabs = I.load_tables(REPO)
     I.helper_closure(ctx, tabs)
+    I.libc_header_closure(ctx, tabs)
+    I.fortran_type_closure(ctx, tabs)
     from contracts import util_header
     ctx.pyvc(util_header.UNITS, {})
+    # relational contract shared with C04: the kind named in an actual argument is the kind registered for USE
+    from contracts import fc_args
+    import copy
+    units = []
+    for u in fc_args.UNITS:
+        if u.name in ("Wrapf.build_arg_list_impl", "Wrapf.build_arg_list_interface[plain]"):
+            u2 = copy.copy(u)
+            u2.prop = "C05"
+            units.append(u2)
+    from contracts import wrapf_helpers
+    units += wrapf_helpers.UNITS
+    skip = [k["skip"] for k in ctx.known if k["status"] == "open" and k.get("skip")]
+    mon = ("m_compile", lambda v: None, lambda nm: {"skip": skip}, 400)
+    ctx.pyvc(units, dict((u.name, mon) for u in units))
+    # bounded stand-in (never counted as proved): the compilers' verdict on what the real generator writes
+    r = ctx.monitor("m_compile", "psearch", 100000, ctx.seed, 16, json.dumps({"skip": skip}))
+    ctx.bounded.append({"monitor": "m_compile", "inputs_tried": r["tried"], "violation": r["violation"],
+                        "kind": "bounded: real generator on the regression corpus (plain, F_CFI, language c/c++): every Fortran "
+                                "module passes gfortran -fsyntax-only in dependency order; on ~80 declaration patterns of the "
+                                "user guide, each wrapped alone in a library (c and c++, plain and F_CFI): generated C/C++ "
+                                "sources and headers (on their own, from C and C++) pass gcc/g++ -fsyntax-only against a "
+                                "synthesised user header, Fortran modules pass gfortran; linking, Python and Lua not covered",
+                        "bound": "%d libraries" % r["tried"]})
+    if r["violation"]:
+        ctx.violation("bounded/m_compile", {"inputs": r["inputs"], "observed": r["violation"]}, True)
+    for k in ctx.known:
+        if k["status"] == "open" and k.get("skip"):
+            res = ctx.monitor("m_compile", "replay", json.dumps(k["witness"]))
+            if res.get("violation"):
+                ctx.report_known(k)
     ctx.extra["exhaustive"] = True
     ctx.extra["table_rows"] = dict((l, len(t["rows"])) for l, t in tabs.items())
     ctx.trusted += [
